@@ -42,7 +42,7 @@ func successReturn(s *an.State, ins ssa.Instruction) bool {
 	if !ok || len(ret.Results) == 0 {
 		return false
 	}
-	return !s.KnownNonNilErr(ret.Results[len(ret.Results)-1])
+	return !s.KnownNonNilErr(s.RetVal(ret, -1))
 }
 
 // nilErrReturn selects Return instructions whose error result is known nil.
@@ -51,7 +51,7 @@ func nilErrReturn(s *an.State, ins ssa.Instruction) bool {
 	if !ok || len(ret.Results) == 0 {
 		return false
 	}
-	return s.KnownNilErr(ret.Results[len(ret.Results)-1])
+	return s.KnownNilErr(s.RetVal(ret, -1))
 }
 
 func c01(c *an.Check) {
